@@ -17,6 +17,10 @@ type Scenario struct {
 	Outcome   func(r *Result) string
 	MaxSteps  int
 	HorizonNs int64
+	// CostedSwitch: when the running thread blocks or exits, continuing with the lowest-numbered runnable thread is
+	// the free default and picking any other runnable thread costs one preemption unit (deviation from the default
+	// scheduler). Default (false) is the CHESS rule: non-preempting context switches are free.
+	CostedSwitch bool
 }
 
 type Bound struct{ Preempt, Dev int }
@@ -76,7 +80,7 @@ func stepCost(s Step, alt int) (p, d int) {
 
 // Replay runs one schedule (with trace) and returns the result; used for confirmation and replay files.
 func (e *Explorer) Replay(schedule []int, trace bool) *Result {
-	return Run(e.Sc.Body, Options{Prefix: schedule, MaxSteps: e.Sc.MaxSteps, HorizonNs: e.Sc.HorizonNs, Trace: trace})
+	return Run(e.Sc.Body, Options{Prefix: schedule, MaxSteps: e.Sc.MaxSteps, HorizonNs: e.Sc.HorizonNs, Trace: trace, CostedSwitch: e.Sc.CostedSwitch})
 }
 
 func (e *Explorer) Explore() *Stats {
@@ -127,7 +131,7 @@ func (e *Explorer) explore(prefix []int, pUsed, dUsed, depth int) {
 			mine = e.ShardI == 0 // shallow nodes are executed by everyone (needed to enumerate), accounted by shard 0
 		}
 	}
-	r := Run(e.Sc.Body, Options{Prefix: prefix, MaxSteps: e.Sc.MaxSteps, HorizonNs: e.Sc.HorizonNs})
+	r := Run(e.Sc.Body, Options{Prefix: prefix, MaxSteps: e.Sc.MaxSteps, HorizonNs: e.Sc.HorizonNs, CostedSwitch: e.Sc.CostedSwitch})
 	if r.Status == StDiverged {
 		e.st.Diverged++
 		e.recordViolation("HARNESS-NONDETERMINISM: "+r.PanicMsg, nil, prefix, r)
